@@ -3,6 +3,7 @@
 package corerad
 
 import (
+	"io"
 	"context"
 	"fmt"
 	"net"
@@ -226,7 +227,15 @@ func (f *c20Fake) Run(ctx context.Context) error {
 	exit := func() error {
 		if f.b.exit == 1 {
 			f.rec.log(func(t *vfh.Toks) { t.S("fl").N(f.k) })
-			return fmt.Errorf("boom %d", f.k)
+			// what the task fails WITH is the task's business: a plain error, or one that wraps an
+			// error of a sub-operation of its own (a context the task itself cancelled or let expire,
+			// a closed file, the end of a stream) — it is fatal all the same
+			switch cause := []error{nil, context.Canceled, context.DeadlineExceeded, os.ErrClosed, io.EOF}[(f.k+f.b.exitAt)%5]; cause {
+			case nil:
+				return fmt.Errorf("boom %d", f.k)
+			default:
+				return fmt.Errorf("boom %d: %w", f.k, cause)
+			}
 		}
 		f.rec.log(func(t *vfh.Toks) { t.S("en").N(f.k) })
 		return nil
